@@ -789,10 +789,12 @@ func (r *Raft) submitReadOnlyOperation(
 		return operationFuture
 	}
 
+	r.operationManager.sequence++
 	operation := &Operation{
 		Bytes:         operationBytes,
 		OperationType: readOnlyType,
 		readIndex:     r.commitIndex,
+		sequence:      r.operationManager.sequence,
 	}
 	r.operationManager.pendingReadOnly[operation] = operationFuture.responseCh
 
@@ -991,6 +993,8 @@ func (r *Raft) sendAppendEntriesToPeers() {
 		if r.log.LastIndex() > r.commitIndex {
 			r.commitCond.Broadcast()
 		}
+		// There is nobody else to confirm leadership.
+		r.operationManager.markAsVerified()
 		r.tryApplyReadOnlyOperations()
 	}
 
@@ -1052,6 +1056,9 @@ func (r *Raft) sendAppendEntries(id string, address string, numResponses *int) {
 		LeaderCommit: r.commitIndex,
 	}
 
+	// Read-only operations registered up to now may be confirmed by the response to this request.
+	readOnlySequence := r.operationManager.sequence
+
 	r.mu.Unlock()
 	response, err := r.transport.SendAppendEntries(address, request)
 	r.mu.Lock()
@@ -1074,9 +1081,15 @@ func (r *Raft) sendAppendEntries(id string, address string, numResponses *int) {
 		return
 	}
 
+	// A response from a voting member confirms the linearizable read-only operations that
+	// were registered before the request was sent.
+	if r.isVoter(id) && r.operationManager.acknowledge(id, readOnlySequence, r.hasQuorum) {
+		r.readOnlyCond.Broadcast()
+	}
+
 	// If the majority of cluster acknowledges the request, this node is a legitimate leader.
-	// Try to apply pending read-only operations.
-	if numResponses != nil {
+	// Try to apply pending read-only operations. Only voting members count.
+	if numResponses != nil && r.isVoter(id) {
 		*numResponses += 1
 		if r.hasQuorum(*numResponses) {
 			r.tryApplyReadOnlyOperations()
@@ -1983,7 +1996,6 @@ func (r *Raft) stepdown() {
 // tryApplyReadOnlyOperations renews the lease and notifies the read-only
 // loop that it may be possible to apply some read-only operations.
 func (r *Raft) tryApplyReadOnlyOperations() {
-	r.operationManager.markAsVerified()
 	r.operationManager.leaderLease.renew()
 	r.operationManager.shouldVerifyQuorum = true
 	r.readOnlyCond.Broadcast()
